@@ -16,6 +16,11 @@ import Model.Wire
 Every operation performs at most one atomic datastore write, so the crash points "between two
 durable writes" are: before / after the single write of the operation in flight.
 
+Ghost accounting is honest about who holds a batch: `Next` deletes the write-ahead record *before*
+it returns (queue.go: `Delete`, then `return &batch`), so a process that dies after the `Delete`
+became durable has removed the batch from the queue but has **not** handed it to the caller
+(`crashNext true`): such a batch is `removed` and `lost`, not `delivered`.
+
 The model is parametric in the key function (`key : Batch → Nat`); the driver and the
 counter-witnesses instantiate it with `realKey` (the real SHA-256 of the real hash encoding, read as
 a big-endian number – the datastore orders the fixed-length lowercase hex strings exactly like
@@ -51,6 +56,14 @@ def realKey (b : Batch) : Nat := beNat (hashOf b)
 /-- the datastore key string `/batches/<hex(sha256 …)>` (printed by the driver, compared with the
 real datastore's key on every run) -/
 def keyString (b : Batch) : String := "/batches/" ++ Bytes.toHex (hashOf b)
+
+/-- 64 lowercase hex digits of a 256-bit number -/
+def hex64 (k : Nat) : String :=
+  String.ofList ((List.range 64).map fun i => Nat.digitChar (k / 16 ^ (63 - i) % 16))
+
+/-- the datastore key string as the driver renders it from the numeric key the model's datastore is
+ordered by (`Drv.C10.showDisk`); equal to `keyString` for every 32-byte hash (`Spec.C10.keyString_eq_render`) -/
+def renderKey (k : Nat) : String := "/batches/" ++ hex64 k
 
 /-- the datastore value: `proto.Marshal(&pb.Batch{Txs: …})` (`repeated bytes txs = 1`) -/
 def valueOf (b : Batch) : Bytes := Wire.encFields (b.map fun t => (1, .len t))
@@ -95,8 +108,8 @@ inductive Op
   | restart
   /-- the process dies during `SubmitBatchTxs`; `afterWrite` = the `Put` had become durable -/
   | crashSubmit (afterWrite : Bool) (id : Bytes) (b : Batch)
-  /-- the process dies during `GetNextBatch`; `afterWrite` = the `Delete` had become durable
-  (the response had been produced, so the batch counts as handed out) -/
+  /-- the process dies during `GetNextBatch`; `afterWrite` = the `Delete` had become durable, but the
+  call has not returned: the caller never received the batch (it is removed from the queue and lost) -/
   | crashNext (afterWrite : Bool) (id : Bytes)
   /-- `BatchQueue.AddBatch` called directly (no admission checks except the bound) -/
   | add (b : Batch)
@@ -166,7 +179,22 @@ def step (cfg : Cfg) (s : St) : Op → St × Out
   | .qnext => nextBatch key s
   | .load => (reload s, .restarted)
 
-/-! ## ghost history: what has been accepted / handed out so far -/
+/-- the state of the process right after the operation's effect and *before* it stops: for the
+operations that restart (`restart`, `load`, the crashes) this is the state whose durable part is then
+reloaded; for the others it is the state after the operation. -/
+def stepCore (cfg : Cfg) (s : St) : Op → St
+  | .submit id b => (submit key cfg s id b).1
+  | .next id => (getNext key cfg s id).1
+  | .restart => s
+  | .crashSubmit true id b => (submit key cfg s id b).1
+  | .crashSubmit false _ _ => s
+  | .crashNext true id => (getNext key cfg s id).1
+  | .crashNext false _ => s
+  | .add b => (addBatch key cfg s b).1
+  | .qnext => (nextBatch key s).1
+  | .load => s
+
+/-! ## ghost history: what has been accepted / removed / handed out / lost so far -/
 
 /-- batches accepted by this step (acknowledged, or durable when the process died) -/
 def acceptedBy : Op → Out → List Batch
@@ -175,27 +203,45 @@ def acceptedBy : Op → Out → List Batch
   | .add b, .ok => [b]
   | _, _ => []
 
-/-- batches handed out by this step -/
-def deliveredBy : Op → Out → List Batch
+/-- batches removed from the queue by this step: popped from memory and the write-ahead record deleted
+(durably) – whether or not the caller ever received them -/
+def removedBy : Op → Out → List Batch
   | .next _, .batch b => [b]
   | .crashNext true _, .batch b => [b]
   | .qnext, .batch b => [b]
+  | _, _ => []
+
+/-- batches handed out by this step: **returned to the caller**.  A call that died between its durable
+`Delete` and its return (`crashNext true`) hands out nothing. -/
+def deliveredBy : Op → Out → List Batch
+  | .next _, .batch b => [b]
+  | .qnext, .batch b => [b]
+  | _, _ => []
+
+/-- batches lost by this step: removed from the queue (record deleted, durable) by a call that died
+before it returned – neither on disk nor with the caller -/
+def lostBy : Op → Out → List Batch
+  | .crashNext true _, .batch b => [b]
   | _, _ => []
 
 structure Run where
   st : St := {}
   /-- accepted so far, in order -/
   acc : List Batch := []
-  /-- handed out so far, in order -/
+  /-- removed from the queue so far (pop + durable delete), in order -/
+  rem : List Batch := []
+  /-- handed out (returned to the caller) so far, in order -/
   dlv : List Batch := []
+  /-- removed from the queue by a call that died before returning, in order -/
+  lost : List Batch := []
   /-- outputs so far, in order -/
   outs : List Out := []
   deriving Repr, DecidableEq, Inhabited
 
 def Run.step (cfg : Cfg) (r : Run) (op : Op) : Run :=
   let so := Queue.step key cfg r.st op
-  { st := so.1, acc := r.acc ++ acceptedBy op so.2, dlv := r.dlv ++ deliveredBy op so.2,
-    outs := r.outs ++ [so.2] }
+  { st := so.1, acc := r.acc ++ acceptedBy op so.2, rem := r.rem ++ removedBy op so.2,
+    dlv := r.dlv ++ deliveredBy op so.2, lost := r.lost ++ lostBy op so.2, outs := r.outs ++ [so.2] }
 
 def runFrom (cfg : Cfg) (r : Run) (ops : List Op) : Run := ops.foldl (Run.step key cfg) r
 
@@ -207,6 +253,11 @@ end
 /-- no restart, crash or reload in this operation -/
 def Op.plain : Op → Bool
   | .submit .. | .next .. | .add .. | .qnext => true
+  | _ => false
+
+/-- the process dies between the durable `Delete` of `Next` and its return -/
+def Op.crashAfterDelete : Op → Bool
+  | .crashNext true _ => true
   | _ => false
 
 /-! ## the abstract FIFO the property speaks about -/
@@ -227,5 +278,34 @@ def astep (cfg : Cfg) (q : List Batch) : Op → List Batch × Out
 def arun (cfg : Cfg) : List Batch → List Op → List Batch × List Out
   | q, [] => (q, [])
   | q, op :: ops => let r := astep cfg q op; let t := arun cfg r.1 ops; (t.1, r.2 :: t.2)
+
+/-! ## concurrent callers
+
+Every exported method of `BatchQueue` takes `bq.mu` first and releases it by `defer`
+(regenerated fact `Gen.C10.queueMethods`, `Spec.C10.calls_are_atomic`), and a `Sequencer` call
+contains at most one such call and touches nothing else that is mutable
+(`Gen.C10.sequencerCalls`).  So a concurrent execution of several clients, each running its own
+program of calls, is a sequence of *atomic* calls: at every moment some client whose next call is
+outstanding gets the mutex and its call runs to completion. -/
+
+/-- `Interleaving progs sched`: `sched` is a merge of the clients' programs `progs` – every call of
+every client exactly once, every client's calls in its program order -/
+inductive Interleaving : List (List Op) → List Op → Prop
+  | done {progs : List (List Op)} : (∀ p ∈ progs, p = []) → Interleaving progs []
+  | call {progs : List (List Op)} {sched : List Op} (i : Nat) (op : Op) (rest : List Op) :
+      progs[i]? = some (op :: rest) → Interleaving (progs.set i rest) sched → Interleaving progs (op :: sched)
+
+section
+variable (key : Batch → Nat)
+
+/-- `Conc progs r r'`: the concurrent system with the clients' remaining programs `progs` can go from
+`r` to `r'` with all programs finished: repeatedly some client with an outstanding call acquires the
+mutex and performs the whole call (one atomic step of the queue). -/
+inductive Conc (cfg : Cfg) : List (List Op) → Run → Run → Prop
+  | done {progs : List (List Op)} {r : Run} : (∀ p ∈ progs, p = []) → Conc cfg progs r r
+  | call {progs : List (List Op)} {r r' : Run} (i : Nat) (op : Op) (rest : List Op) :
+      progs[i]? = some (op :: rest) → Conc cfg (progs.set i rest) (Run.step key cfg r op) r' → Conc cfg progs r r'
+
+end
 
 end Queue
